@@ -1,12 +1,12 @@
 (* C19  Local rewrites keep or specialise the function exactly as documented.
-   Statements only; proofs live in Proofs/SemRename.v, SemReplaceInputs.v, SemRemove.v,
+   Statements only; proofs live in Proofs/SemRenameGate.v, SemReplaceInputs.v, SemRemove.v,
    SemReplaceSub*.v (semantics) and Proofs/WF*.v (well-formedness, C02).
 
-   ren old new l := if l = old then new else l   (Proofs/SemRename.v)
+   ren old new l := if l = old then new else l   (Proofs/SemRenameGate.v)
    Eval c a l v  is the relational semantics of Model/Sem.v (tied to the evaluators by C01). *)
 Require Import Cirbo.Model.Base Cirbo.Model.Gate Cirbo.Model.Den Cirbo.Model.Circuit Cirbo.Model.Connect
         Cirbo.Model.Eval Cirbo.Model.Sem Cirbo.Model.History Cirbo.Model.WF.
-Require Import Cirbo.Proofs.WFEmplace Cirbo.Proofs.WFStep Cirbo.Proofs.SemExt Cirbo.Proofs.SemRename
+Require Import Cirbo.Proofs.WFEmplace Cirbo.Proofs.WFStep Cirbo.Proofs.SemExt Cirbo.Proofs.SemRenameGate
         Cirbo.Proofs.SemReplaceInputs Cirbo.Proofs.SemRemove Cirbo.Proofs.SemReplaceSub Cirbo.Proofs.SemEvaluate2
         Cirbo.Proofs.C19Final.
 
